@@ -56,6 +56,9 @@ type Case struct {
 	TimeoutMs int    `json:"timeout_ms"` // adversary: the deadline; relay/eager: deadline when Linger, else ignored
 	Linger    bool   `json:"linger"`
 
+	// method "dialer": the Dialer value was used for an earlier dial whose URL had dial_timeout=45s
+	Prior bool `json:"prior,omitempty"`
+
 	Server  string `json:"server"`  // adversary behaviour
 	Garbage []byte `json:"garbage"` // what that behaviour sends
 
@@ -115,7 +118,16 @@ func dial(c Case, addr string, d time.Duration) (net.Conn, error) {
 		if d <= 0 {
 			d = generous
 		}
-		return telnet.Dialer{Timeout: d}.DialURL(u)
+		dl := &telnet.Dialer{Timeout: d}
+		if c.Prior {
+			// the same Dialer was used before, for a URL that carried its own (long) dial_timeout; that dial
+			// failed at once (nobody listens there). The Dialer's own Timeout must still bound the next dial.
+			pu := &transport.URL{Scheme: "telnet", Host: deadAddr(), User: url.UserPassword("N0CALL", ""), Target: "WL2K", Digis: []string{}, Params: url.Values{"dial_timeout": {"45s"}}}
+			if pc, _ := dl.DialURL(pu); pc != nil {
+				pc.Close()
+			}
+		}
+		return dl.DialURL(u)
 	default: // context
 		ctx := context.Background()
 		if d > 0 {
@@ -125,6 +137,17 @@ func dial(c Case, addr string, d time.Duration) (net.Conn, error) {
 		}
 		return telnet.DialContext(ctx, addr, c.Call, pw)
 	}
+}
+
+// deadAddr returns a loopback address on which nobody listens (a listener is opened and closed again).
+func deadAddr() string {
+	ln, err := net.Listen("tcp", "127.0.0.1:0")
+	if err != nil {
+		return "127.0.0.1:1"
+	}
+	a := ln.Addr().String()
+	ln.Close()
+	return a
 }
 
 func isTimeout(err error) bool {
@@ -499,6 +522,7 @@ func genCase(t *rapid.T) Case {
 		c.Method = rapid.SampledFrom([]string{"context", "timeout", "url", "dialer"}).Draw(t, "method")
 		c.TimeoutMs = rapid.IntRange(50, 400).Draw(t, "timeout_ms")
 		c.Server = rapid.SampledFrom(servers).Draw(t, "server")
+		c.Prior = c.Method == "dialer" && rapid.Bool().Draw(t, "prior")
 		switch c.Server {
 		case "prompt-then-never-reads", "callsign-then-never-reads-password":
 			// the dialler must be blocked in a WRITE when the deadline passes: the reply has to exceed what
@@ -613,6 +637,9 @@ func account(c Case, o outcome) {
 	}
 	if bytes.IndexByte(c.Password, '\n') >= 0 {
 		harness.Label("password:has-LF")
+	}
+	if c.Prior {
+		harness.Label("history:dialer-used-before-with-a-long-dial_timeout-URL")
 	}
 	if c.PwLen >= 4096 {
 		harness.Label("password:>=4096-bytes")
